@@ -3,6 +3,7 @@
 SPECIFICATION Spec
 CONSTANTS N = 3
           MaxCrashes = 2
+          Features = {"crash", "fail"}
           MaxFails = 1
           MtLen = 3
           CaseN = 2
